@@ -4111,7 +4111,8 @@ class DecAffine(Affine):
 
         expr = super().sum(axis)
 
-        return DecAffine(self.dro_model, expr, self.event_adapt, self.fixed)
+        return DecAffine(self.dro_model, expr, self.event_adapt, self.fixed,
+                         self.ctype)
 
     def trace(self):
         """
@@ -4126,7 +4127,8 @@ class DecAffine(Affine):
 
         expr = super().trace()
 
-        return DecAffine(expr.dro_model, expr, self.event_adapt, self.fixed)
+        return DecAffine(expr.dro_model, expr, self.event_adapt, self.fixed,
+                         self.ctype)
 
     def expcone(self, x, z):
         """
